@@ -3,16 +3,22 @@
 # that property, record exit code and the VIOLATION lines in seeded/<ID>/check_output.txt, and restore /repo straight afterwards.
 # Expected: exit 1 with at least one VIOLATION line for every seed. Nothing is committed to /repo.
 VERIF="$(cd "$(dirname "$0")/.." && pwd)"; cd "$VERIF"
-IDS="${*:-$(ls seeded | grep '^C[0-9][0-9]b\?$')}"
+IDS="${*:-$(ls seeded | grep '^C[0-9][0-9][bcd]\?$')}"
 exec 9>/tmp/verif_repo.lock; flock 9
 RC=0
 for id in $IDS; do
   git -C /repo status --porcelain --untracked-files=no | grep -q . && { echo "/repo has uncommitted changes"; exit 2; }
   git -C /repo apply "$VERIF/seeded/$id/patch.diff" || { echo "$id apply FAILED"; RC=1; continue; }
   P=${id:0:3}   # seeded/C07b is a second seed for property C07
-  OUT="$(./check $P --tier quick 2>&1)"; E=$?
+  # which checks to run: the property's own, unless seeded/<id>/checks names others (a change may be caught by a neighbouring property's check)
+  CH="$P"; [ -f "seeded/$id/checks" ] && CH="$(cat seeded/$id/checks)"
+  : > "seeded/$id/check_output.txt"; OK=0
+  for c in $CH; do
+    OUT="$(./check $c --tier quick 2>&1)"; E=$?
+    { echo "# ./check $c --tier quick   on /repo with seeded/$id/patch.diff applied"; echo "exit=$E"; echo "$OUT" | grep -A2 '^VIOLATION' | cut -c1-600 | head -30; echo "$OUT" | grep "^$c quick" ; } >> "seeded/$id/check_output.txt"
+    N=$(echo "$OUT" | grep -c '^VIOLATION'); echo "$id check=$c exit=$E violations=$N"; [ "$E" = "1" ] && [ "$N" -ge 1 ] && OK=1
+  done
   git -C /repo checkout -- .
-  { echo "# ./check $P --tier quick   on /repo with seeded/$id/patch.diff applied"; echo "exit=$E"; echo "$OUT" | grep -A2 '^VIOLATION' | cut -c1-600 | head -30; echo "$OUT" | grep "^$P quick" ; } > "seeded/$id/check_output.txt"
-  N=$(echo "$OUT" | grep -c '^VIOLATION'); echo "$id exit=$E violations=$N"; [ "$E" = "1" ] && [ "$N" -ge 1 ] || RC=1
+  [ "$OK" = "1" ] || { echo "$id NOT DETECTED"; RC=1; }
 done
 exit $RC
